@@ -736,7 +736,7 @@ func init() {
 			"10% of runs: third-party encrypted corpus files (cenc, cbcs video/audio, PIFF with in-file or separate init) must decrypt to identical sizes and timing with offsets inside the file. non-trivial = every run; distinct = hash of (scheme, IV size, codec, fragment layout, fetch order, encode mode, delivered read sizes).",
 		Assumptions: []string{"whether the ciphertext is standard CENC is C07 (pure function) and not decided here", "single track / one trun per fragment, as InitProtect and EncryptFragment document", "order of boxes is not demanded by the statement: the inventory is a multiset"},
 		Real:        realLib, Stub: []string{"io.Reader delivery (SimDisk handle)", "segment fetch order / duplication / separate init (unit transport)", "virtual device time"}, RealNoFault: realNoFault,
-		Runs:       map[string]int{"quick": 20000, "thorough": 1500000},
+		Runs:       map[string]int{"quick": 200000, "thorough": 12000000},
 		Setup:      c06Setup,
 		Run:        c06Run,
 		WantFaults: []string{"segment-duplicated", "segment-reordered", "read-short"},
